@@ -680,7 +680,7 @@ func failKind(o rt.Outcome) string {
 }
 
 func units(tier string) []engine.Unit {
-	maxN := 3
+	maxN := 4
 	if tier == "thorough" {
 		maxN = 5
 	}
